@@ -12,18 +12,33 @@ from .common import Corr, f2hex
 
 ID = "C12"
 LEAN_MODULES = ["TempestVerif.Props.C12"]
-RULE = ("posterior(): on finished real runs (kernels x resamplers x blobs on/off) all 16 option combinations x "
-        "(ess_trim,bins_trim) in {(0.99,1000),(0.9,50),(0.5,7)}; the trimming / resampling index vectors the real code used are "
-        "captured and fed to the Lean model (Model.Posterior over the gather tables regenerated from source), which predicts for "
-        "every output row the history particle each returned array must show; compared exactly (values, lengths, tuple layout, "
-        "weights). Non-trivial = trimming or resampling on. "
+RULE = ("posterior(): on finished real runs (both kernels x both resamplers x blob form in {none, float, (float,3) from 3 scalars, "
+        "(float,3) from one array, structured [('a',float),('b',int)], (float,(2,2)) from two rows, (float,(2,2)) from one 2x2 array, "
+        "mixed structured with a sub-array field}) all 16 option combinations x (ess_trim,bins_trim) in {(0.99,1000),(0.9,50),(0.5,7)} "
+        "(thorough: + (0.999,1000),(0.2,1),(0.75,2)); the trimming / resampling index vectors the real code used are captured and fed to "
+        "the Lean model (Model.Posterior.body over the gather tables regenerated from source), which predicts for every output row the "
+        "history particle each returned array must show; compared exactly (values, lengths, tuple layout, weights; blobs byte-wise, and "
+        "each returned blob must be the blob of the returned x in the same row). Non-trivial = trimming or resampling on. "
+        "posterior-composition: for the same calls, what the whole-routine model Model.Posterior.posterior assumes: trim_weights called "
+        "iff trimming, once, with (arange(N), untrimmed weights, ess_trim, bins_trim); systematic_resample called iff resampling, once, "
+        "with (len(w), w) for w the trimmed (else untrimmed) weights bit-identically; untrimmed weights vs the model's Float "
+        "exp(logw-max)/sum within 1e-9; resampled weights bit-equal to the model's 1/n. "
         "_not_termination(): real guard vs Model.Run.notTerm at Float (bit-exact) on real states with beta and n_total placed on "
-        "both sides of the thresholds. run(): the real run returned and the model guard says stop on its final state; evidence() "
-        "equals the recomputation from the stored history.")
-MODELLED = ["trim_weights and systematic_resample are parameters of the posterior model (their own contracts are C20 and C06); "
-            "the index vectors they returned in the real call are passed to the model",
-            "termination of run() is not claimed (liveness)"]
-ASSUMPTIONS = ["np.percentile / sorting inside trim_weights are outside this property (C20)"]
+        "both sides of the thresholds; guard-from-history: the whole guard incl. the ESS computed from the stored log-weights "
+        "(Model.Run.notTermination, Float; ESS within 1e-9, decision exact unless ESS is within rounding of n_total), also on a sampler "
+        "with an empty history. run(): the real run returned, beta <= 1, and both model guards say stop on its final state; evidence() "
+        "equals the recomputation from the stored history bit for bit; also for runs resumed from a checkpoint with a larger n_total.")
+MODELLED = ["trim_weights and systematic_resample inside the whole-routine model are the executable models of C20 (Model.Trim) and C06 "
+            "(Model.Resample); their tie to the real functions is C20's / C06's correspondence (here: the index vectors they returned in "
+            "the real call are passed to the gather model, and the call arguments are compared)",
+            "compute_logw_and_logz(1.0) is a parameter (the log-weight vector / Z(1) of a history): its content is C04/C11's",
+            "execute_iteration is an arbitrary state transformer in the run-loop theorems",
+            "termination of run() is not claimed (liveness)",
+            "beta <= 1 on return is checked on the real runs only (the bisection range is C05's)"]
+ASSUMPTIONS = ["np.percentile / sorting inside trim_weights are outside this property (C20)",
+               "the flat history arrays x, logl, blobs and the log-weight vector have one common length (C07/C17; observed exactly by the "
+               "row-identity suite)",
+               "Float rounding of exp/sum in the untrimmed weights and the ESS is bridged by tolerance only"]
 
 
 def translators():
@@ -35,47 +50,111 @@ def _quiet():
     return contextlib.redirect_stdout(io.StringIO())
 
 
+def _L1(x):
+    return -0.5 * float(np.sum((x - 0.5) ** 2)) * 3.0
+
+
+# every documented blob form (docs/examples/blobs.md): name -> (blobs_dtype, blob items of x); the likelihood returns
+# `(logl, *items)`.  `(float, k)` is documented both with k separate scalars ("vec3") and with ONE array of length k
+# ("vec3-array", runs since /repo 6caa7d6 = F26); likewise `(float, (2, 2))` with two row lists or one 2x2 array.
+BLOB_FORMS = {
+    "scalar": (float, lambda x: (float(x[0]) * 2.0 + 1.0,)),
+    "vec3": ((float, 3), lambda x: (float(x[0]) * 2.0 + 1.0, float(x[-1]), float(np.sum(x)))),
+    "struct": ([("a", float), ("b", int)], lambda x: (float(x[0]) * 2.0 + 1.0, int(x[-1] > 0))),
+    "mat": ((float, (2, 2)), lambda x: ([1.0, float(x[0])], [float(x[-1]), 2.0])),
+    "vec3-array": ((float, 3), lambda x: (np.array([float(x[0]) * 2.0 + 1.0, float(x[-1]), float(np.sum(x))]),)),
+    "mat-array": ((float, (2, 2)), lambda x: (np.outer([1.0, float(x[0])], [float(x[-1]), 2.0]),)),
+    "mixed": ([("t", float), ("v", float, 2)], lambda x: (float(np.sum(x)), [float(x[0]) * 2.0, float(x[-1]) - 1.0])),
+}
+
+
+def _form(blobs):
+    """normalise the blob selector (older failing inputs carry a bool)"""
+    if blobs is True:
+        return "scalar"
+    return blobs or None
+
+
+def _blob_of(form, x):
+    """the blob row the likelihood attaches to the point x, as stored under the form's dtype"""
+    dt, items = BLOB_FORMS[form]
+    it = items(x)
+    if len(it) == 1 and isinstance(it[0], np.ndarray):      # one array-valued blob: the row IS that array
+        return np.asarray(it[0], dtype=np.dtype(dt).base)
+    return np.array([it], dtype=dt)[0]
+
+
+def _blob_eq(a, b):
+    a, b = np.asarray(a), np.asarray(b)
+    return a.dtype == b.dtype and a.size == b.size and a.tobytes() == b.tobytes()   # (a lone blob is stored squeezed)
+
+
 def _make_run(rng, kernel, resample, blobs, n_total=96):
     from tempest import Sampler
     d = 2
+    form = _form(blobs)
 
     def prior(u):
         return 8.0 * u - 4.0
+    if form is None:
+        like = _L1
+    else:
+        items = BLOB_FORMS[form][1]
 
-    def like(x):
-        l = -0.5 * float(np.sum((x - 0.5) ** 2)) * 3.0
-        return (l, float(x[0]) * 2.0 + 1.0) if blobs else l
+        def like(x):
+            return (_L1(x),) + tuple(items(x))
     seed = rng.randrange(2 ** 31)
     np.random.seed(seed)
     s = Sampler(prior, like, d, n_particles=32, clustering=False, sample=kernel, resample=resample,
-                blobs_dtype=("f8" if blobs else None), n_steps=1, n_max_steps=2)
+                blobs_dtype=(BLOB_FORMS[form][0] if form else None), n_steps=1, n_max_steps=2)
     with _quiet(), warnings.catch_warnings():
         warnings.simplefilter("ignore")
         s.run(n_total=n_total, progress=False)
     return s, seed
 
 
-def _posterior_cases(c, drv, rng, s, blobs, tier):
+def _close(a, b, scale=None):
+    a, b = np.asarray(a, dtype=float), np.asarray(b, dtype=float)
+    if a.shape != b.shape:
+        return False
+    sc = float(np.max(np.abs(b))) if (scale is None and b.size) else (scale or 0.0)
+    return bool(np.all(np.abs(a - b) <= 1e-9 * (1.0 + sc)))
+
+
+def _posterior_cases(c, cc, drv, rng, s, form, tier, seed, runinfo=None):
+    """all 16 option combinations x trimming parameters on one finished run.
+    c: row identity through the captured index vectors (exact).  cc: the composition the whole-routine model
+    `Model.Posterior.posterior` assumes — which routine is called with which arguments — and its own arithmetic."""
     import tempest.tools as tools
     st = s.state
+    blobs = form is not None
     pool = {"x": st.get_history("x", flat=True), "l": st.get_history("logl", flat=True),
             "b": st.get_history("blobs", flat=True) if blobs else None}
     logw_full, _ = st.compute_logw_and_logz(1.0)
     N = len(pool["l"])
-    params = [(0.99, 1000), (0.9, 50), (0.5, 7)]
+    w0_model = drv.batch(["post.w0 logw=" + ",".join(f2hex(float(v)) for v in logw_full)])[0]
+    w0_model = None if w0_model in ("none", "bad-op") else np.array([common.hex2f(t) for t in w0_model.split(",")])
+    # ess_trim = 1.0 (and above): nothing may be trimmed away; the loop must stop at the bottom of the grid (F28, /repo 8ceb8ba)
+    params = [(0.99, 1000), (0.9, 50), (0.5, 7), (1.0, 1000)]
+    if tier == "thorough":
+        params += [(0.999, 1000), (0.2, 1), (0.75, 2), (math.nextafter(1.0, 0.0), 50), (math.nextafter(1.0, 2.0), 7), (1.5, 3)]
     lines, recs = [], []
     for (res, trim, rb, rl), (ess_t, bins_t) in itertools.product(itertools.product([False, True], repeat=4), params):
         if not trim and (ess_t, bins_t) != params[0]:
             continue
-        cap = {"tidx": None, "tw": None, "ridx": None}
+        if trim:
+            c.count(f"ess_trim{'<' if ess_t < 1.0 else ('=' if ess_t == 1.0 else '>')}1")
+        cap = {"tidx": None, "tw": None, "ridx": None, "tcalls": [], "rcalls": []}
         real_trim, real_sr = tools.trim_weights, tools.systematic_resample
 
         def spy_trim(samples, weights, ess=0.99, bins=1000):
+            cap["tcalls"].append({"samples": np.array(samples), "weights": np.array(weights), "ess": ess, "bins": bins})
             i, w = real_trim(samples, weights, ess=ess, bins=bins)
             cap["tidx"], cap["tw"] = [int(v) for v in i], np.array(w)
             return i, w
 
         def spy_sr(size, weights, random_state=None):
+            cap["rcalls"].append({"size": size, "weights": np.array(weights)})
             r = real_sr(size, weights)
             cap["ridx"] = [int(v) for v in r]
             return r
@@ -87,17 +166,62 @@ def _posterior_cases(c, drv, rng, s, blobs, tier):
                 out = s.posterior(resample=res, return_blobs=rb, trim_importance_weights=trim, return_logw=rl,
                                   ess_trim=ess_t, bins_trim=bins_t)
             except Exception as e:  # noqa
-                c.disagree(input={"resample": res, "trim": trim, "return_blobs": rb, "return_logw": rl}, impl=f"raised {type(e).__name__}: {e}", model="returns")
+                c.disagree(input={"resample": res, "trim": trim, "return_blobs": rb, "return_logw": rl, "blob_form": form},
+                           impl=f"raised {type(e).__name__}: {e}", model="returns", run=runinfo, params=[ess_t, bins_t])
                 continue
         line = (f"post.run n={N} trim={int(trim)} res={int(res)} blobs={int(blobs)} rb={int(rb)} rl={int(rl)} "
                 f"tidx={','.join(map(str, cap['tidx'])) if cap['tidx'] else '-'} ridx={','.join(map(str, cap['ridx'])) if cap['ridx'] else '-'}")
         lines.append(line)
         recs.append((out, cap, (res, trim, rb, rl, ess_t, bins_t)))
     answers = drv.batch(lines)
+    unif = {}
+    need = sorted({len(r[0][1]) for r in recs if r[2][0]})
+    for n, a in zip(need, drv.batch([f"post.unif n={n}" for n in need])):
+        unif[n] = a
     for (out, cap, opts), line, ans in zip(recs, lines, answers):
         res, trim, rb, rl, ess_t, bins_t = opts
-        c.case((line, id(s)), trim or res)
+        c.case((line, seed, form), trim or res)
         c.count(f"trim={int(trim)},res={int(res)}")
+        c.count(f"blob_form={form}")
+        c.count(f"returns={'+'.join(n for n, f in (('blobs', rb and blobs), ('logw', rl)) if f) or 'x,weights,logl only'}")
+        # ---- composition (what Model.Posterior.posterior assumes about the calls) ----
+        cc.case((line, seed, form, ess_t, bins_t), True)
+        cc.count(f"trim={int(trim)},res={int(res)}")
+        comp = None
+        w_in = None     # the untrimmed weights the real routine computed
+        if len(cap["tcalls"]) != int(trim) or len(cap["rcalls"]) != int(res):
+            comp = f"{len(cap['tcalls'])} calls of trim_weights, {len(cap['rcalls'])} of systematic_resample"
+        else:
+            if trim:
+                t = cap["tcalls"][0]
+                w_in = t["weights"]
+                if not np.array_equal(t["samples"], np.arange(N)):
+                    comp = "trim_weights not called with np.arange(len(weights))"
+                elif t["ess"] != ess_t or t["bins"] != bins_t:
+                    comp = f"trim_weights called with ess={t['ess']!r}, bins={t['bins']!r}"
+                elif len(cap["tidx"]) != len(cap["tw"]):
+                    comp = "trim_weights returned different numbers of indices and weights"
+            if res and comp is None:
+                r = cap["rcalls"][0]
+                if trim:
+                    if not np.array_equal(r["weights"], cap["tw"]):
+                        comp = "systematic_resample not called with the trimmed weights"
+                else:
+                    w_in = r["weights"]
+                if comp is None and r["size"] != len(r["weights"]):
+                    comp = f"systematic_resample called with size={r['size']} for {len(r['weights'])} weights"
+            if not trim and not res:
+                w_in = out[1]
+            if comp is None and (w0_model is None or not _close(w_in, w0_model)):
+                comp = "untrimmed weights differ from the model's exp(logw-max)/sum"
+            if comp is None and res:
+                n = len(out[1])
+                if unif.get(n) in (None, "-", "bad-op") or not np.array_equal(out[1], np.full(n, common.hex2f(unif[n]))):
+                    comp = f"weights after resampling are not the model's 1/n (n={n})"
+        if comp:
+            cc.disagree(input=line[:200], impl=comp, model="posterior = weights0 >>= trim(arange n) >>= systematic(len w) >>= body",
+                        opts={"resample": res, "trim_importance_weights": trim, "ess_trim": ess_t, "bins_trim": bins_t, "blob_form": form})
+        # ---- row identity ----
         if not ans.startswith("names="):
             c.disagree(input=line, impl=f"returned {len(out)} arrays", model=ans)
             continue
@@ -118,8 +242,12 @@ def _posterior_cases(c, drv, rng, s, blobs, tier):
                     problem = "x rows are not the particles the model predicts"
                 elif not np.array_equal(got["logl"], pool["l"][tags["l"]]):
                     problem = "logl rows are not the particles the model predicts"
-                elif "blobs" in got and not np.array_equal(got["blobs"], pool["b"][tags["b"]]):
+                elif "blobs" in got and not _blob_eq(got["blobs"], pool["b"][tags["b"]]):
                     problem = "blobs rows are not the particles the model predicts"
+                elif "blobs" in got and got["blobs"].shape[1:] != pool["b"].shape[1:]:
+                    problem = f"blob rows of shape {got['blobs'].shape[1:]}, stored rows have {pool['b'].shape[1:]}"
+                elif "blobs" in got and not all(_blob_eq(got["blobs"][k], _blob_of(form, got["x"][k])) for k in range(nw)):
+                    problem = "a returned blob is not the blob of the returned x in the same row"
                 elif "logw" in got and not np.array_equal(got["logw"], logw_full[tags["lw"]]):
                     problem = "logw rows are not the particles the model predicts"
                 else:
@@ -139,8 +267,60 @@ def _posterior_cases(c, drv, rng, s, blobs, tier):
                         problem = f"weights negative or not summing to one (sum={float(np.sum(w))!r})"
         if problem:
             c.disagree(input=line, impl=problem, model=ans[:200], opts={"resample": res, "trim_importance_weights": trim,
-                       "return_blobs": rb, "return_logw": rl, "ess_trim": ess_t, "bins_trim": bins_t})
-        c.sample({"op": line[:160], "model": ans[:160]})
+                       "return_blobs": rb, "return_logw": rl, "ess_trim": ess_t, "bins_trim": bins_t, "blob_form": form},
+                       run=runinfo, params=[ess_t, bins_t])
+        c.sample({"op": line[:160], "model": ans[:160], "blob_form": form})
+    cc.sample({"n": N, "blob_form": form, "w0_model_head": None if w0_model is None else [float(v) for v in w0_model[:3]]})
+
+
+def _guard_history_cases(c, drv, rng, s):
+    """the whole `_not_termination()` (ESS computed from the stored history) vs Model.Run.notTermination at Float"""
+    from tempest.tools import effective_sample_size
+    from translate import g1_constants
+    tol = g1_constants.extract()["TERM_BETA_TOL"]
+    core, st = s._core, s.state
+    logw, _ = st.compute_logw_and_logz(1.0)
+    ess = float(effective_sample_size(np.exp(logw - np.max(logw)))) if len(logw) else None
+    lw = ",".join(f2hex(float(v)) for v in logw) if len(logw) else "-"
+    beta0, nt0 = st.get_current("beta"), getattr(core, "n_total", 0)
+    betas = [1.0, math.nextafter(1.0 - 1e-4, 2.0), 1.0 - 1e-4, 0.5, 1.0 - 1e-4 * rng.uniform(0.5, 1.5)]
+    nts = [1, 10 ** 9] if ess is None else [1, math.floor(ess), math.ceil(ess), round(ess * rng.uniform(0.5, 1.5)), math.ceil(ess * 2)]
+    lines, impl, meta = [], [], []
+    try:
+        for b in betas:
+            for nt in nts:
+                st.set_current("beta", b)
+                core.n_total = nt
+                impl.append(bool(core._not_termination()))
+                lines.append(f"term.H tol={f2hex(tol)} beta={f2hex(b)} logw={lw} ntotal={f2hex(float(nt))}")
+                meta.append((b, nt))
+    finally:
+        st.set_current("beta", beta0)
+        core.n_total = nt0
+    for line, i, m, (b, nt) in zip(lines, impl, drv.batch(lines), meta):
+        c.case((line[:60], line[-40:], len(logw), digest_arr(logw)), True)
+        c.count("empty-history" if ess is None else ("continue" if i else "stop"))
+        parts = m.split(" ")
+        if len(parts) != 2 or parts[0] not in ("0", "1"):
+            c.disagree(input={"beta": b, "n_total": nt, "n": len(logw)}, impl=i, model=m[:80])
+            continue
+        if ess is None:
+            if parts != ["1", "-"] or i is not True:
+                c.disagree(input={"beta": b, "n_total": nt, "n": 0}, impl=i, model=m)
+            continue
+        ess_m = common.hex2f(parts[1])
+        if abs(ess_m - ess) > 1e-9 * (1.0 + abs(ess)):
+            c.disagree(input={"beta": b, "n_total": nt, "n": len(logw)}, impl={"ess": ess}, model={"ess": ess_m})
+        elif (parts[0] == "1") != i:
+            if abs(ess - nt) <= 1e-9 * (1.0 + abs(ess)):
+                c.near_ties += 1
+            else:
+                c.disagree(input={"beta": b, "n_total": nt, "n": len(logw), "ess": ess}, impl=i, model=parts[0])
+    c.sample({"n": len(logw), "ess": ess, "first": {"beta": meta[0][0], "n_total": meta[0][1], "impl": impl[0]}})
+
+
+def digest_arr(a):
+    return common.digest(np.asarray(a, dtype=float).tobytes().hex()[:4096])
 
 
 def _term_cases(c, drv, rng, s):
@@ -181,15 +361,27 @@ def correspond(tier):
     drv = common.Driver()
     rng = common.rng_for("C12")
     cp = Corr("posterior-16-combinations", "exact (row identity through captured index vectors)")
+    cc = Corr("posterior-composition", "call arguments and uniform weights exact; untrimmed weights toleranced Float (1e-9)")
     ct = Corr("not-termination-guard", "bit-exact Float")
+    ch = Corr("guard-from-history", "toleranced Float (ESS 1e-9 relative; decision exact away from ESS = n_total)")
     cr = Corr("run-epilogue", "exact")
-    configs = [("tpcn", "mult", True), ("rwm", "syst", False)]
+    # every blob form (none + the five documented ones) x both kernels x both resamplers over the runs
+    configs = [("tpcn", "mult", "scalar"), ("rwm", "syst", None), ("rwm", "mult", "vec3"), ("tpcn", "syst", "struct"),
+               ("rwm", "syst", "mat"), ("tpcn", "mult", "mixed"), ("tpcn", "syst", "vec3-array"), ("rwm", "mult", "mat-array")]
     if tier == "thorough":
-        configs += [("tpcn", "syst", False), ("rwm", "mult", True), ("tpcn", "mult", False), ("rwm", "syst", True)] * 3
-    for kernel, resample, blobs in configs:
-        s, seed = _make_run(rng, kernel, resample, blobs)
-        _posterior_cases(cp, drv, rng, s, blobs, tier)
+        forms = [None] + list(BLOB_FORMS)
+        configs += [(k, r, f) for k in ("tpcn", "rwm") for r in ("mult", "syst") for f in forms] * 2
+    # the guard on a sampler that has not run yet (empty history => continue)
+    from tempest import Sampler
+    s_fresh = Sampler(lambda u: 8.0 * u - 4.0, _L1, 2, n_particles=32, clustering=False)
+    _guard_history_cases(ch, drv, rng, s_fresh)
+    for kernel, resample, form in configs:
+        blobs = form
+        s, seed = _make_run(rng, kernel, resample, form)
+        _posterior_cases(cp, cc, drv, rng, s, form, tier, seed,
+                         runinfo={"kernel": kernel, "resample": resample, "blobs": form, "n_total": 96, "seed": seed})
         _term_cases(ct, drv, rng, s)
+        _guard_history_cases(ch, drv, rng, s)
         # run epilogue: run() returned => model guard says stop; evidence() == Z(1) recomputed from the stored history
         st = s.state
         logw, z1 = st.compute_logw_and_logz(1.0)
@@ -198,12 +390,19 @@ def correspond(tier):
         ess = float(effective_sample_size(np.exp(logw - np.max(logw))))
         tol = g1_constants.extract()["TERM_BETA_TOL"]
         line = f"term.F tol={f2hex(tol)} beta={f2hex(st.get_current('beta'))} ess={f2hex(ess)} ntotal={f2hex(float(s._core.n_total))}"
-        m = drv.batch([line])[0]
+        lineh = (f"term.H tol={f2hex(tol)} beta={f2hex(st.get_current('beta'))} logw={','.join(f2hex(float(v)) for v in logw)} "
+                 f"ntotal={f2hex(float(s._core.n_total))}")
+        m, mh = drv.batch([line, lineh])
         cr.case((kernel, resample, blobs, seed), True)
+        cr.count(f"blob_form={form}")
         ev = s.evidence()[0]
-        if m != "0" or f2hex(ev) != f2hex(z1):
+        beta_f = st.get_current("beta")
+        # the whole-guard model must say stop too, unless the ESS sits within rounding of n_total
+        mh_ok = mh.split(" ")[0] == "0" or abs(ess - s._core.n_total) <= 1e-9 * (1.0 + ess)
+        if m != "0" or not mh_ok or f2hex(ev) != f2hex(z1) or not (beta_f <= 1.0):
             cr.disagree(input={"kernel": kernel, "resample": resample, "blobs": blobs, "seed": seed},
-                        impl={"returned": True, "evidence": ev, "recomputed": z1}, model={"guard_continue": m})
+                        impl={"returned": True, "evidence": ev, "recomputed": z1, "beta": beta_f},
+                        model={"guard_continue": m, "guard_from_history": mh[:20]})
         cr.sample({"config": [kernel, resample, blobs], "beta": st.get_current("beta"), "ess": ess, "n_total": s._core.n_total, "evidence": ev})
     # run() entered through a checkpoint, asking for MORE samples than the run that wrote it: the postconditions are about the
     # n_total passed to THIS run()
@@ -239,18 +438,22 @@ def correspond(tier):
                             model={"guard_continue_for_requested_n_total": m}, resume=True)
         finally:
             shutil.rmtree(d, ignore_errors=True)
-    return [cp, ct, cr]
+    return [cp, cc, ct, ch, cr]
 
 
 # ------------------------------------------------------------------ property oracle on the real code
-def oracle_run(s, blobs):
+def oracle_run(s, blobs, extra_params=()):
     """postconditions of run() + posterior contract for all 16 combinations; returns list of violations"""
     from tempest.tools import effective_sample_size
     bad = []
+    form = _form(blobs)
+    blobs = form is not None
     st = s.state
     beta = st.get_current("beta")
     logw, z1 = st.compute_logw_and_logz(1.0)
     ess = float(effective_sample_size(np.exp(logw - np.max(logw))))
+    if not (beta <= 1.0):
+        bad.append({"what": f"run() returned with beta={beta!r} > 1"})
     if not (1.0 - beta < 1e-4):
         bad.append({"what": f"run() returned with beta={beta!r} (1-beta >= 1e-4)"})
     if not ess >= s._core.n_total:
@@ -264,7 +467,7 @@ def oracle_run(s, blobs):
     for i, row in enumerate(pool_x):
         index.setdefault(row.tobytes(), []).append(i)
     for res, trim, rb, rl in itertools.product([False, True], repeat=4):
-        for ess_t, bins_t in [(0.99, 1000), (0.5, 7)]:
+        for ess_t, bins_t in [(0.99, 1000), (0.5, 7), (1.0, 1000)] + [tuple(p) for p in extra_params]:
             opts = {"resample": res, "trim_importance_weights": trim, "return_blobs": rb, "return_logw": rl, "ess_trim": ess_t, "bins_trim": bins_t}
             try:
                 with warnings.catch_warnings():
@@ -287,9 +490,13 @@ def oracle_run(s, blobs):
                 bad.append({"what": "weights not uniform with resample=True", "opts": opts})
             for k in range(len(x)):
                 cands = index.get(x[k].tobytes(), [])
-                ok = any(pool_l[i] == l[k] and (bl is None or np.array_equal(pool_b[i], bl[k])) and (lw is None or logw[i] == lw[k]) for i in cands)
+                ok = any(pool_l[i] == l[k] and (bl is None or _blob_eq(pool_b[i], bl[k])) and (lw is None or logw[i] == lw[k]) for i in cands)
                 if not ok:
                     bad.append({"what": f"posterior row {k}: no stored particle has this (x, logl, blob, logw) combination", "opts": opts})
+                    break
+                # the likelihood is a pure function: the row's logl / blob must be those of the row's x
+                if _L1(x[k]) != l[k] or (bl is not None and not _blob_eq(bl[k], _blob_of(form, x[k]))):
+                    bad.append({"what": f"posterior row {k}: logl / blob are not those of the x in the same row (blob form {form})", "opts": opts})
                     break
             if bad:
                 return bad
@@ -357,6 +564,15 @@ def oracle_resume(rng):
     return bad
 
 
+class _Fixed:
+    """stands in for the rng in _make_run: replays a recorded seed"""
+    def __init__(self, seed):
+        self.seed = seed
+
+    def randrange(self, n):
+        return self.seed
+
+
 def search(tier, hints):
     rng = common.rng_for("C12.search")
     found = []
@@ -371,11 +587,26 @@ def search(tier, hints):
             found.append(b)
     except Exception as e:  # noqa
         found.append({"what": f"run raised {type(e).__name__}: {e}", "config": ["rwm", "syst", False, 64]})
+    # the very runs (and trimming parameters) on which a correspondence suite disagreed, first
+    seen = set()
+    for h in hints or []:
+        ri = h.get("run")
+        if not ri or (ri["seed"], ri["kernel"]) in seen or len(seen) >= 4:
+            continue
+        seen.add((ri["seed"], ri["kernel"]))
+        try:
+            s, _ = _make_run(_Fixed(ri["seed"]), ri["kernel"], ri["resample"], ri["blobs"], ri["n_total"])
+            for b in oracle_run(s, ri["blobs"], extra_params=[h["params"]] if h.get("params") else ()):
+                b.update({"config": {k: ri[k] for k in ("kernel", "resample", "blobs", "n_total")}, "seed": ri["seed"],
+                          "extra_params": [h["params"]] if h.get("params") else []})
+                found.append(b)
+        except Exception as e:  # noqa
+            found.append({"what": f"run raised {type(e).__name__}: {e}", "config": ri})
     n = 6 if tier == "quick" else 40
     for _ in range(n):
         kernel = rng.choice(["tpcn", "rwm"])
         resample = rng.choice(["mult", "syst"])
-        blobs = rng.random() < 0.5
+        blobs = rng.choice([None, None] + list(BLOB_FORMS))
         n_total = rng.choice([64, 128, 256])
         try:
             s, seed = _make_run(rng, kernel, resample, blobs, n_total)
@@ -401,11 +632,7 @@ def replay(obj):
         return {"fails": bool(b), "detail": b[:1]}
     cfg, seed = f["config"], f["seed"]
     from tempest import Sampler
-    blobs = cfg["blobs"]
-
-    class R:
-        def randrange(self, n):
-            return seed
-    s, _ = _make_run(R(), cfg["kernel"], cfg["resample"], blobs, cfg["n_total"])
-    bad = oracle_run(s, blobs) + oracle_guard(s)
+    blobs = _form(cfg["blobs"])
+    s, _ = _make_run(_Fixed(seed), cfg["kernel"], cfg["resample"], blobs, cfg["n_total"])
+    bad = oracle_run(s, blobs, extra_params=f.get("extra_params", ())) + oracle_guard(s)
     return {"fails": bool(bad), "detail": bad[:1]}
